@@ -221,3 +221,136 @@ Section Gen.
     induction (x_hl x) as [|h l IHl]; cbn [map rights app]; [reflexivity | exact IHl].
   Qed.
 End Gen.
+
+(* ---------------------------------------------------------------- facts about the two lists *)
+Lemma nodup_app {T} (a b : list T) : NoDup a -> NoDup b -> (forall x, In x a -> ~ In x b) -> NoDup (a ++ b).
+Proof.
+  induction 1 as [|x a Hx Ha IH]; intros Hb Hd; cbn [app]; [exact Hb|].
+  constructor.
+  - intros Hin. apply in_app_or in Hin as [Hin|Hin]; [exact (Hx Hin) | exact (Hd x (or_introl eq_refl) Hin)].
+  - apply IH; [exact Hb|]. intros y Hy. apply Hd. right. exact Hy.
+Qed.
+Lemma cnt_app id a b : cnt id (a ++ b) = (cnt id a + cnt id b)%nat.
+Proof. induction a as [|s a IH]; cbn [app cnt]; [reflexivity|]. destruct (N.eqb _ _); rewrite IH; reflexivity. Qed.
+Lemma cnt_perm id a b : Permutation a b -> cnt id a = cnt id b.
+Proof.
+  induction 1 as [|x a b H IH|x y a|a b c H1 IH1 H2 IH2]; cbn [cnt]; try reflexivity.
+  - rewrite IH. reflexivity.
+  - destruct (N.eqb _ _), (N.eqb _ _); reflexivity.
+  - rewrite IH1. exact IH2.
+Qed.
+Lemma tot_sh_app a b : tot_sh (a ++ b) = tot_sh a + tot_sh b.
+Proof. induction a as [|h a IH]; cbn [app tot_sh]; [ring|]. rewrite IH. ring. Qed.
+
+Lemma find_app_local {T} (f : T -> bool) a b :
+  find f (a ++ b) = match find f a with Some x => Some x | None => find f b end.
+Proof. induction a as [|x a IH]; cbn [app find]; [reflexivity|]. destruct (f x); [reflexivity | exact IH]. Qed.
+Definition aid (x : aff * nat) : N := af_id (fst x).
+Definition is_jan1 (s : asell) : Prop := exists y, as_date s = jan1 y.
+
+Lemma in_gap_sorted l : as_sorted l -> Forall is_jan1 l -> StronglySorted (fun a b => in_gap (as_date a) b) l.
+Proof.
+  induction 1 as [|a l Hl IH Ha]; intros HF; [constructor|].
+  apply Forall_cons_iff in HF as [(ya & Ea) HF]. constructor; [apply IH; exact HF|].
+  apply Forall_forall. intros b Hb. rewrite Forall_forall in Ha, HF. specialize (Ha b Hb). destruct (HF b Hb) as (yb & Eb).
+  unfold in_gap, window_days. rewrite Ea, Eb in *.
+  destruct (Z.lt_trichotomy ya yb) as [H|[H|H]].
+  - right. pose proof (jan1_lt ya yb H). lia.
+  - left. rewrite H. reflexivity.
+  - exfalso. pose proof (jan1_lt yb ya H). lia.
+Qed.
+
+Section Facts.
+  Variable ds : list delta.
+  Variable dflt : delta.
+  Notation x_h := (x_h ds dflt).
+  Notation x_hl := (x_hl ds dflt).
+  Notation x_ys := (x_ys ds).
+  Notation x_sells := (x_sells ds dflt).
+  Notation x_sh := (x_sh ds dflt).
+  Notation x_d := (x_d ds dflt).
+  Notation x_apsv := (x_apsv ds dflt).
+
+  Lemma in_hl afs h : In h (flat_map x_hl afs) -> exists x, In x afs /\ 0 < ah_n (x_h x) /\ h = x_h x.
+  Proof.
+    intros H. apply in_flat_map in H as (x & Hx & Hh). exists x. split; [exact Hx|]. unfold C10AnnualRows.x_hl in Hh.
+    destruct (Qcltb_spec 0 (ah_n (x_h x))) as [Hp|]; [|destruct Hh]. destruct Hh as [<-|[]]. split; [exact Hp | reflexivity].
+  Qed.
+  Lemma in_sells afs s : In s (flat_map x_sells afs) ->
+    exists x yg, In x afs /\ In yg (x_ys x) /\ s = ysell (fst x) (x_apsv x) yg.
+  Proof.
+    intros H. apply in_flat_map in H as (x & Hx & Hs). unfold C10AnnualRows.x_sells in Hs.
+    apply in_map_iff in Hs as (yg0 & <- & Hy). exists x, yg0. auto.
+  Qed.
+
+  Lemma nodup_hl afs : NoDup (map aid afs) -> NoDup (map (fun h => af_id (ah_af h)) (flat_map x_hl afs)).
+  Proof.
+    induction afs as [|x afs IH]; intros Hnd; [constructor|].
+    apply NoDup_cons_iff in Hnd as [Hni Hnd]. cbn [flat_map]. rewrite map_app.
+    apply nodup_app; [| apply IH; exact Hnd |].
+    - unfold C10AnnualRows.x_hl. destruct (Qcltb 0 _); cbn [map]; repeat constructor. intros [].
+    - intros k Hk Hk2. unfold C10AnnualRows.x_hl in Hk. destruct (Qcltb 0 _); [|destruct Hk].
+      destruct Hk as [<-|[]]. apply in_map_iff in Hk2 as (h & Eh & Hh). apply in_hl in Hh as (y & Hy & _ & ->).
+      cbn [x_h ah_af C10AnnualRows.x_h] in Eh. apply Hni. apply in_map_iff. exists y. split; [exact Eh | exact Hy].
+  Qed.
+
+  Lemma find_ah_gen afs : NoDup (map aid afs) -> forall af,
+    find_ah (flat_map x_hl afs) af
+    = match find (fun x => N.eqb (aid x) (af_id af)) afs with
+      | Some x => if Qcltb 0 (ah_n (x_h x)) then Some (x_h x) else None
+      | None => None
+      end.
+  Proof.
+    induction afs as [|x afs IH]; intros Hnd af; [reflexivity|].
+    apply NoDup_cons_iff in Hnd as [Hni Hnd]. cbn [flat_map find]. unfold find_ah in *. rewrite find_app_local.
+    unfold aid at 1. destruct (N.eqb (af_id (fst x)) (af_id af)) eqn:E.
+    - unfold C10AnnualRows.x_hl at 1. destruct (Qcltb 0 (ah_n (x_h x))).
+      + cbn [find x_h ah_af C10AnnualRows.x_h]. rewrite E. reflexivity.
+      + cbn [find]. rewrite (IH Hnd af).
+        destruct (find (fun x0 => N.eqb (aid x0) (af_id af)) afs) as [y|] eqn:Ef; [|reflexivity].
+        exfalso. apply find_some in Ef as [Hy Ey]. apply N.eqb_eq in E. apply N.eqb_eq in Ey.
+        apply Hni. apply in_map_iff. exists y. split; [unfold aid in *; congruence | exact Hy].
+    - unfold C10AnnualRows.x_hl at 1. destruct (Qcltb 0 (ah_n (x_h x))).
+      + cbn [find x_h ah_af C10AnnualRows.x_h]. rewrite E. apply (IH Hnd af).
+      + cbn [find]. apply (IH Hnd af).
+  Qed.
+
+  Lemma cnt_sells_other id x : aid x <> id -> cnt id (x_sells x) = O.
+  Proof.
+    intros Hn. unfold C10AnnualRows.x_sells. induction (x_ys x) as [|yg0 l IH]; cbn [map cnt]; [reflexivity|].
+    cbn [ysell as_af]. destruct (N.eqb_spec (af_id (fst x)) id) as [E|_]; [contradiction | exact IH].
+  Qed.
+  Lemma cnt_sells_own x : cnt (aid x) (x_sells x) = length (x_ys x).
+  Proof.
+    unfold C10AnnualRows.x_sells. induction (x_ys x) as [|yg0 l IH]; cbn [map cnt length]; [reflexivity|].
+    cbn [ysell as_af]. unfold aid at 1. rewrite N.eqb_refl, IH. reflexivity.
+  Qed.
+  Lemma cnt_gen afs : NoDup (map aid afs) -> forall x, In x afs -> cnt (aid x) (flat_map x_sells afs) = length (x_ys x).
+  Proof.
+    induction afs as [|y afs IH]; intros Hnd x Hx; [destruct Hx|].
+    apply NoDup_cons_iff in Hnd as [Hni Hnd]. cbn [flat_map]. rewrite cnt_app. destruct Hx as [->|Hx].
+    - rewrite cnt_sells_own. assert (E : cnt (aid x) (flat_map x_sells afs) = O); [|lia].
+      clear -Hni. induction afs as [|z afs IH]; cbn [flat_map]; [reflexivity|]. rewrite cnt_app, cnt_sells_other, IH; [reflexivity| |].
+      + intros Hc. apply Hni. right. exact Hc.
+      + intros Ez. apply Hni. left. exact Ez.
+    - rewrite cnt_sells_other, (IH Hnd x Hx); [reflexivity|]. intros E. apply Hni. rewrite E. apply in_map. exact Hx.
+  Qed.
+
+  Lemma nodup_akey afs : NoDup (map aid afs) -> (forall x, In x afs -> NoDup (map fst (x_ys x))) ->
+    NoDup (map akey (flat_map x_sells afs)).
+  Proof.
+    induction afs as [|x afs IH]; intros Hnd Hy; [constructor|].
+    apply NoDup_cons_iff in Hnd as [Hni Hnd]. cbn [flat_map]. rewrite map_app. apply nodup_app.
+    - pose proof (Hy x (or_introl eq_refl)) as Hx. unfold C10AnnualRows.x_sells. clear -Hx.
+      induction (x_ys x) as [|yg0 l IH]; cbn [map] in *; [constructor|].
+      apply NoDup_cons_iff in Hx as [Hn Hx]. constructor; [|apply IH; exact Hx].
+      intros Hc. apply in_map_iff in Hc as (s & Es & Hs). apply in_map_iff in Hs as (yg1 & <- & Hy1).
+      unfold akey, ysell in Es. cbn [as_af as_date] in Es. inversion Es as [Ej]. apply jan1_inj in Ej.
+      apply Hn. rewrite <- Ej. apply in_map. exact Hy1.
+    - apply IH; [exact Hnd|]. intros y Hyin. apply Hy. right. exact Hyin.
+    - intros k Hk Hk2. apply in_map_iff in Hk as (s & <- & Hs). apply in_map_iff in Hk2 as (s2 & E2 & Hs2).
+      unfold C10AnnualRows.x_sells in Hs. apply in_map_iff in Hs as (yg1 & <- & _).
+      apply in_sells in Hs2 as (z & yg2 & Hz & _ & ->). unfold akey, ysell in E2. cbn [as_af as_date] in E2.
+      inversion E2 as [[Eid Edate]]. apply Hni. apply in_map_iff. exists z. split; [exact Eid | exact Hz].
+  Qed.
+End Facts.
